@@ -72,7 +72,9 @@ def encircled_energy(data,
 
     rad = numpy.append(0, rad)
     ee = numpy.append(0, ee)
-    ee /= numpy.sum(data)
+    # total in double precision, like the partial sums above (pup is float64): a single-precision
+    # total of a float32 image can come out below a partial sum and push the curve above 1
+    ee /= numpy.sum(data, dtype=float)
     xi = numpy.linspace(0, dim, int(4 * dim))
     yi = numpy.interp(xi, rad, ee)
 
